@@ -1032,3 +1032,231 @@ def case_dec_k(ser, token, keysrc, sender, verify_all, obs, log):
 def case_enc_k(obs, info):
     """like case_enc, with the use checks of the recipient / sender Key objects"""
     return case_enc(obs, info, with_keys=True)
+
+
+# --------------------------------------------------------------------------
+# registry selection of the entry points: none / algorithms= / registry= / both
+# --------------------------------------------------------------------------
+SEL_MODES = [("none", None, None), ("algorithms", True, None), ("registry-true", None, True),
+             ("registry-false", None, False), ("both-true", True, True), ("both-false", True, False)]
+
+
+def do_decrypt_sel(ser, token, keys, sender=None, algorithms=None, reg=None):
+    """algorithms: list of names or None; reg: None or the verify_all_recipients of a caller's own registry"""
+    from joserfc import jwe
+    kw = {}
+    if algorithms is not None:
+        kw["algorithms"] = list(algorithms)
+    if reg is not None:
+        kw["registry"] = registry(reg)
+    with recording() as rec:
+        try:
+            if ser == "compact":
+                o = jwe.decrypt_compact(token, keys[0], sender_key=sender, **kw)
+            else:
+                o = jwe.decrypt_json(copy.deepcopy(token), key_picker(keys), sender_key=sender, **kw)
+            obs = ("ok", bytes(o.plaintext), copy.deepcopy(o.protected), o)
+        except BaseException as e:  # noqa
+            obs = ("err", exn_class(e), e)
+    return obs, (list(rec.log), rec.nondet)
+
+
+def case_dec_sel(ser, token, keys, sender, algorithms, reg, obs, log):
+    a = "None" if algorithms is None else "(Some %s)" % c_list([c_str(n) for n in algorithms])
+    r = "None" if reg is None else "(Some %s)" % ("gT" if reg else "gF")
+    sk = c_opt(sender, c_key)
+    if ser == "compact":
+        tb = token if isinstance(token, bytes) else token.encode("utf-8")
+        return "CDecCompactSel %s %s %s %s %s %s %s" % (c_otable(log), a, r, c_hex(tb), c_key(keys[0]), sk, c_obs_dec(obs))
+    return "CDecJsonSel %s %s %s %s %s %s %s" % (c_otable(log), a, r, c_pv(token), c_list([c_key(k) for k in keys]), sk, c_obs_dec(obs))
+
+
+# --------------------------------------------------------------------------
+# operation sequences on message objects (re-encryption of an existing object)
+# --------------------------------------------------------------------------
+def do_encrypt_obj(obj, sender=None, verify_all=True):
+    """jwe.encrypt_json on an EXISTING Flattened/General object (keys attached to its recipients);
+    -> (obs, info) where info describes the object's state BEFORE the call (the model's input)"""
+    from joserfc import jwe
+    reg = registry(verify_all)
+    ser = "flat" if obj.flattened else "general"
+    prot_in = copy.deepcopy(obj.protected)
+    unprot_in = copy.deepcopy(obj.unprotected)
+    recs_in = [(copy.deepcopy(r.header), r.recipient_key, r.ephemeral_key, r.sender_key) for r in obj.recipients]
+    prior = [(k, bytes(v)) for k, v in obj.base64_segments.items()]
+    aad_in, pt_in = obj.aad, obj.plaintext
+    with recording() as rec:
+        try:
+            out = jwe.encrypt_json(obj, None, registry=reg, sender_key=sender)
+            obs = ("ok", copy.deepcopy(out))
+        except BaseException as e:  # noqa
+            obs = ("err", exn_class(e), e)
+    gen, dm, da = list(rec.gen_keys), list(rec.draw_models), list(rec.draw_algs)
+    algs = [merged_headers(ser, prot_in, unprot_in, h).get("alg") for h, _, _, _ in recs_in]
+    all_direct = all(a in DIRECT_ALGS for a in algs)
+    cek, civ = b"", b""
+    if len(dm) >= 2:
+        cek, civ = dm[0], dm[1]
+    elif len(dm) == 1:
+        if all_direct:
+            civ = dm[0]
+        else:
+            cek = dm[0]
+    rdraws, ephs = [], []
+    for (h, _, eph0, _), a in zip(recs_in, algs):
+        kwiv, p2s, eph = b"", b"", eph0
+        if isinstance(a, str) and a in GCMKW_ALGS and da:
+            kwiv = da.pop(0)
+        if isinstance(a, str) and a in PBES2_ALGS and "p2s" not in merged_headers(ser, prot_in, unprot_in, h) and da:
+            p2s = da.pop(0)
+        if isinstance(a, str) and is_agreement(a) and eph is None and gen:
+            eph = gen.pop(0)
+        rdraws.append((kwiv, p2s))
+        ephs.append(eph)
+    snd = sender if sender is not None else next((s for _, _, _, s in recs_in if s is not None), None)
+    info = {"ser": ser, "protected": prot_in, "unprotected": unprot_in, "aad": aad_in, "plaintext": pt_in,
+            "recips": [(h, k) for h, k, _, _ in recs_in], "sender": snd, "cek": cek, "civ": civ, "rdraws": rdraws,
+            "ephs": ephs, "verify_all": verify_all, "names": None, "log": list(rec.log), "nondet": rec.nondet,
+            "prior": prior}
+    return obs, info
+
+
+def case_enc_prior(obs, info):
+    base = case_enc(obs, info)              # "CEncJson <table> <g> <o> <d> <exp>"
+    assert base.startswith("CEncJson ")
+    table = c_otable(info["log"])
+    rest = base[len("CEncJson ") + len(table) + 1:]
+    g, tail = rest.split(" ", 1)
+    prior = c_list(["(%s, %s)" % (c_str(k), c_hex(v)) for k, v in info["prior"]])
+    return "CEncJsonPrior %s %s %s %s" % (table, g, prior, tail)
+
+
+def content_aad_matches(log, token):
+    """the AAD the content encryption was fed == ASCII(emitted "protected" member) [+ "." + emitted "aad" member]"""
+    exp = token["protected"].encode("ascii") + ((b"." + token["aad"].encode("ascii")) if "aad" in token else b"")
+    iv, ct = b64d(token["iv"]), b64d(token["ciphertext"])
+    seen = False
+    for name, args, res in log:
+        if name == "gcm_enc" and args[2] is not None:
+            seen = True
+            if args[2] == exp:
+                return True
+        if name == "cc_enc":
+            seen = True
+            if args[2] == exp:
+                return True
+        if name == "mac":
+            seen = True
+            if args[2] == exp + iv + ct + (8 * len(exp)).to_bytes(8, "big"):
+                return True
+    return not seen and False
+
+
+def sequence_checks(ctx, K, rng, cases, meta, bump, ref_decrypt=None, ref_encrypt=None, pid="C04"):
+    """operation sequences: decrypt a foreign-spelled token and re-encrypt the returned object; encrypt one object
+    several times with header edits in between.  Every result must decrypt (joserfc, and the strict reference when
+    given), its AAD must be the emitted protected member, untouched fields must stay."""
+    from joserfc import jwe
+
+    def verdict(label, obj, obs, info, keys, expect_prot):
+        ctx.note_case(("sequence", label))
+        bump("sequence")
+        sig = {"kind": "sequence", "step": label.split(":")[0]}
+        rp = {"label": label, "protected": info["protected"], "prior": [k for k, _ in info["prior"]]}
+        if obs[0] != "ok":
+            ctx.violation(dict(sig, what="encrypt-failed"), "re-encryption of a message object failed (%s): %s" % (label, obs[1]), rp)
+            return None
+        tok = obs[1]
+        if not info["nondet"] and table_chars(info["log"]) < 40000:
+            cases.append(case_enc_prior(obs, info)); meta.append(("sequence", label))
+        if not content_aad_matches(info["log"], tok):
+            ctx.violation(dict(sig, what="aad-not-emitted-header"),
+                          "the AAD fed to the content encryption is not ASCII(the \"protected\" member that was emitted) (%s)" % label,
+                          dict(rp, token=tok))
+        o2, _ = do_decrypt("json", tok, keys)
+        if o2[0] != "ok" or o2[1] != info["plaintext"]:
+            ctx.violation(dict(sig, what="joserfc-rejects"), "joserfc does not decrypt what it re-encrypted (%s): %s" % (
+                label, o2[1] if o2[0] == "err" else "other plaintext"), dict(rp, token=tok))
+        if ref_decrypt is not None:
+            for i, k in enumerate(keys):
+                try:
+                    good = ref_decrypt(tok, k.as_dict(private=True), None, index=i) == info["plaintext"]
+                    why = "other plaintext"
+                except Exception as e:  # noqa
+                    good, why = False, "%s: %s" % (type(e).__name__, e)
+                if not good:
+                    ctx.violation(dict(sig, what="reference-rejects"),
+                                  "the independent implementation does not decrypt a re-encrypted object (%s, recipient %d): %s" % (label, i, why),
+                                  dict(rp, token=tok))
+        if obj.protected != expect_prot or obj.plaintext != info["plaintext"] or obj.aad != info["aad"] \
+                or (obj.unprotected or None) != (info["unprotected"] or None):
+            ctx.violation(dict(sig, what="object-fields-changed"),
+                          "encrypt_json changed fields of the object the caller did not touch (%s)" % label, rp)
+        return tok
+
+    combos = [("A128KW", "A128CBC-HS256"), ("dir", "A256GCM"), ("ECDH-ES+A128KW", "A128GCM"), ("RSA-OAEP", "C20P"),
+              ("A128GCMKW", "A192CBC-HS384"), ("PBES2-HS256+A128KW", "A128GCM")]
+    if not ctx.quick:
+        combos += [(a, e) for a in ALL_ALGS if a not in PU_ALGS for e in ("A256CBC-HS512", "XC20P")][::2]
+    # (1) decrypt a foreign token (other spelling of the protected header), re-encrypt the returned object
+    if ref_encrypt is not None:
+        spells = [("spaced", lambda t: json_respaced(t)), ("pretty", lambda t: real_json.dumps(real_json.loads(t), indent=2)),
+                  ("padded", lambda t: " " + t + "\n")]
+        for n, (alg, enc) in enumerate(combos):
+            for ser in ("flat", "general"):
+                key = K.for_alg(alg, enc, "P-256")
+                pt = b"foreign then re-encrypted %d" % n
+                rcp = [{"alg": alg, "key": key.as_dict(private=True), "sender": None, "apu": None, "apv": None, "p2c": 3}]
+                sp = spells[n % len(spells)]
+                tok = ref_encrypt(ser, enc, rcp, pt, aad=b"aad" if n % 2 else None, spell=sp[1], alg_in_protected=(n % 3 == 0))
+                try:
+                    obj = jwe.decrypt_json(tok, key, registry=registry())
+                except Exception as e:  # noqa
+                    ctx.violation({"kind": "sequence", "step": "foreign-decrypt"}, "foreign token rejected: %r" % e, {"token": tok})
+                    continue
+                exp_prot = copy.deepcopy(obj.protected)
+                obs, info = do_encrypt_obj(obj)
+                verdict("reencrypt-foreign:%s/%s/%s/%s" % (alg, enc, ser, sp[0]), obj, obs, info, [key], exp_prot)
+                alt = K.for_alg(alg, enc, "P-256", "alt")
+                for r in obj.recipients:
+                    r.recipient_key = alt
+                    r.ephemeral_key = None
+                obs, info = do_encrypt_obj(obj)
+                verdict("reencrypt-foreign-new-key:%s/%s/%s" % (alg, enc, ser), obj, obs, info, [alt], exp_prot)
+    # (2) one object encrypted several times, the protected header edited in between
+    other_enc = {"A128CBC-HS256": "A256GCM", "A256GCM": "A128CBC-HS256", "A128GCM": "A192GCM", "C20P": "A256GCM",
+                 "A192CBC-HS384": "A256CBC-HS512", "A256CBC-HS512": "XC20P", "XC20P": "C20P"}
+    for n, (alg, enc) in enumerate(combos):
+        for ser in ("flat", "general"):
+            cls = jwe.FlattenedJSONEncryption if ser == "flat" else jwe.GeneralJSONEncryption
+            keys = [K.for_alg(alg, enc, "P-256")]
+            pt = b"same object again %d" % n
+            prot = {"enc": enc}
+            obj = cls(copy.deepcopy(prot), pt, {"cty": "t"} if n % 2 else None, b"extra" if n % 3 == 0 else None)
+            obj.add_recipient(recipient_header(rng, alg), keys[0])
+            if ser == "general" and alg not in DIRECT_ALGS and n % 2 == 0:
+                keys.append(K.for_alg("A256KW", enc))
+                obj.add_recipient({"alg": "A256KW"}, keys[1])
+            tag = "%s/%s/%s" % (alg, enc, ser)
+            obs, info = do_encrypt_obj(obj)
+            verdict("first:" + tag, obj, obs, info, keys, prot)
+            obj.protected["zip"] = "DEF"
+            prot = dict(prot, zip="DEF")
+            obs, info = do_encrypt_obj(obj)
+            verdict("after-adding-zip:" + tag, obj, obs, info, keys, prot)
+            obj.protected["cty"] = "text/plain"
+            del obj.protected["zip"]
+            prot = {"enc": enc, "cty": "text/plain"}
+            obs, info = do_encrypt_obj(obj)
+            verdict("after-member-added-and-removed:" + tag, obj, obs, info, keys, prot)
+            if alg != "dir":
+                obj.protected["enc"] = other_enc[enc]
+                prot = dict(prot, enc=other_enc[enc])
+                obs, info = do_encrypt_obj(obj)
+                verdict("after-changing-enc:" + tag, obj, obs, info, keys, prot)
+            obs, info = do_encrypt_obj(obj)
+            verdict("unchanged-again:" + tag, obj, obs, info, keys, prot)
+
+
+def json_respaced(t):
+    return real_json.dumps(real_json.loads(t), separators=(", ", ": "))
